@@ -688,9 +688,9 @@ def xoutput_filtered_case(pr):
 def shared_cmd_case(pr):
     """a command whose output one target's build changes, declared by that target (as output), by its consumer (through
     X.output) and by an unrelated target (as input): every skip decision uses what the command prints NOW"""
-    pr.write("version.txt", "1")
-    pr.write("trigger/t.txt", "t1")
-    bump = _t([{"paths": ["trigger"]}], [{"cmd_stdout": "cat version.txt"}], name="bump", body="sleep 0.5; echo $(( $(cat version.txt) + 1 )) > version.txt")
+    pr.write("version.txt", "0")
+    pr.write("trigger/t.txt", "one\n")
+    bump = _t([{"paths": ["trigger"]}], [{"cmd_stdout": "cat version.txt"}], name="bump", body="sleep 0.5; grep -c . trigger/t.txt > version.txt")
     package = _t(["bump.output"], None, name="package")
     notes = _t([{"cmd_stdout": "cat version.txt"}], None, name="notes")
     pr.write("zinoma.yml", yml({"bump": bump, "package": package, "notes": notes}))
@@ -701,7 +701,7 @@ def shared_cmd_case(pr):
     _run_ok(pr, "package", "notes")
     if pr.log():
         return {"property": "C03", "expected": "third invocation on an untouched tree: nothing runs", "observed": "log %s" % pr.log()}
-    pr.edit("trigger/t.txt", "t2-longer")     # bump runs again and changes what `cat version.txt` prints
+    pr.edit("trigger/t.txt", "one\ntwo\n")     # bump runs again and changes what `cat version.txt` prints
     pr.clear_log()
     r = _run_ok(pr, "package", "notes")
     log = pr.log()
